@@ -9,6 +9,7 @@ import (
 	"math/rand"
 	"runtime"
 	"sync"
+	"sync/atomic"
 	"time"
 
 	"github.com/Tnze/go-mc/chat"
@@ -241,6 +242,47 @@ func playerListScenario(seed int64, id int) []map[string]any {
 	return log.ev
 }
 
+// playerListBurst: the list is filled to one below its capacity, then several goroutines released by a
+// barrier join at the same instant. A capacity check that is not atomic with the insert admits more than one.
+func playerListBurst(seed int64, id int) []map[string]any {
+	rng := newRand(seed, fmt.Sprint("plburst", id))
+	capN := 1 + rng.Intn(3)
+	pl := server.NewPlayerList(capN)
+	log := &linLog{}
+	log.add(map[string]any{"k": "reset", "cap": capN, "scn": id})
+	for i := 0; i < capN-1; i++ {
+		c := &plClient{id: 900 + i}
+		log.add(map[string]any{"k": "start", "g": 0, "op": "join", "c": c.id})
+		pl.ClientJoin(c, server.PlayerSample{Name: fmt.Sprint(c.id)})
+		log.add(map[string]any{"k": "end", "g": 0, "r": 1 - c.refused})
+	}
+	ng := 4 + rng.Intn(4)
+	var wg sync.WaitGroup
+	var ready, goFlag atomic.Int32
+	for g := 1; g <= ng; g++ {
+		g := g
+		wg.Add(1)
+		go func() {
+			defer wg.Done()
+			c := &plClient{id: g*10 + 1}
+			ready.Add(1)
+			for goFlag.Load() == 0 { // spin: all joiners leave the barrier together
+			}
+			log.add(map[string]any{"k": "start", "g": g, "op": "join", "c": c.id})
+			pl.ClientJoin(c, server.PlayerSample{Name: fmt.Sprint(c.id)})
+			log.add(map[string]any{"k": "end", "g": g, "r": 1 - c.refused})
+		}()
+	}
+	for int(ready.Load()) < ng {
+		runtime.Gosched()
+	}
+	goFlag.Store(1)
+	wg.Wait()
+	log.add(map[string]any{"k": "sample", "n": pl.Len()})
+	log.add(map[string]any{"k": "quiesce", "n": pl.Len()})
+	return log.ev
+}
+
 func runPlayerList(env *vk.Env) {
 	if env.MustSpec(vk.TLCRun{Name: "S PlayerList", Module: "PlayerList", Cfg: "PlayerList_MC.cfg", Workers: 4}) == nil {
 		return
@@ -251,6 +293,11 @@ func runPlayerList(env *vk.Env) {
 		scen = append(scen, playerListScenario(env.Seed, i))
 	}
 	judgeLin(env, "PlayerList_Trace", "PlayerList_Trace.cfg", "B PlayerList histories", "PlayerList", scen, "lin")
+	var bursts [][]map[string]any
+	for i := 0; i < env.Pick(500, 6000); i++ {
+		bursts = append(bursts, playerListBurst(env.Seed, 10000+i))
+	}
+	judgeLin(env, "PlayerList_Trace", "PlayerList_Trace.cfg", "B PlayerList simultaneous joins at capacity-1", "PlayerList", bursts, "lin")
 	env.Distinct("playerlist")
 }
 
